@@ -93,13 +93,13 @@ type c07gen struct {
 }
 
 func (g *c07gen) scalar() string {
-	return sx.Pick(g.rng, []string{"v1", "v2", "x y", "1", "true", "null", "0x10", "1.5", "~", "\"q\"", "2002-08-15"})
+	return sx.Pick(g.rng, []string{"v1", "v2", "x y", "1", "true", "null", "0x10", "1.5", "~", "\"q\"", "2002-08-15", "18446744073709551615"})
 }
 
 func (g *c07gen) key(i int) string {
 	if g.rng.Chance(8) {
 		g.oddKeys = true
-		return sx.Pick(g.rng, []string{"1", "0x1", "true", "True", "1.0", "1e0", "yes", "0o1"})
+		return sx.Pick(g.rng, []string{"1", "0x1", "true", "True", "1.0", "1e0", "yes", "0o1", "18446744073709551615", "9223372036854775808", "0xFFFFFFFFFFFFFFFF", "-9223372036854775808"})
 	}
 	if g.rng.Chance(15) && len(g.scalarAnch) > 0 {
 		g.oddKeys = true
